@@ -38,18 +38,18 @@ Proof.
   intros x Fx Hx. destruct (fmul255 x Fx Hx) as [E F].
   assert (0 <= RN (B2R x * 255) <= 255)%R as [L U].
   { split.
-    - rewrite <- RN_0. apply RN_mono. lra.
-    - rewrite <- RN_255. apply RN_mono. lra. }
+    - apply Rle_trans with (RN 0); [rewrite RN_0; lra|apply RN_mono; lra].
+    - apply Rle_trans with (RN 255); [apply RN_mono; lra|rewrite RN_255; lra]. }
   unfold fadd.
   pose proof (Bplus_correct 24 128 Hp24 Hpe24 mode_NE (fmul x c255) chalf F (proj2 chalf_val)) as H.
   rewrite E, (proj1 chalf_val) in H.
   assert (0 <= RN (RN (B2R x * 255) + 1 / 2) <= 256)%R as [L2 U2].
   { split.
-    - rewrite <- RN_0. apply RN_mono. lra.
+    - apply Rle_trans with (RN 0); [rewrite RN_0; lra|apply RN_mono; lra].
     - assert (G : RN 256 = 256%R).
       { apply round_generic; [apply valid_rnd_round_mode|].
         replace 256%R with (bpow radix2 8) by (simpl; lra). apply generic_format_bpow. unfold SpecFloat.fexp, SpecFloat.emin. lia. }
-      rewrite <- G. apply RN_mono. lra. }
+      apply Rle_trans with (RN 256); [apply RN_mono; lra|rewrite G; lra]. }
   rewrite Rlt_bool_true in H.
   - destruct H as (E2 & F2 & _). split; assumption.
   - rewrite Rabs_pos_eq by exact L2. apply Rle_lt_trans with 256%R; [exact U2|].
@@ -114,8 +114,8 @@ Proof.
     pose proof (Bmult_correct 24 128 Hp24 Hpe24 mode_NE t a) as H. rewrite Ft, Fa in H.
     assert (0 <= RN (B2R t * B2R a) <= B2R a)%R as [L U].
     { split.
-      - rewrite <- RN_0. apply RN_mono. nra.
-      - rewrite <- (RN_B2R a) at 2. apply RN_mono. nra. }
+      - apply Rle_trans with (RN 0); [rewrite RN_0; lra|apply RN_mono; nra].
+      - apply Rle_trans with (RN (B2R a)); [apply RN_mono; nra|rewrite RN_B2R; lra]. }
     rewrite Rlt_bool_true in H.
     + destruct H as (E & F & _). cbn [andb] in F. fold (fmul t a) in E, F.
       apply store2_mono; [exact F|exact Fa|rewrite E; exact L|rewrite E; exact U|exact A1].
